@@ -585,6 +585,25 @@ def r13_block_primitives_invalidate(idx, r):
             r.require(any(isinstance(x, ast.Assign) and norm(x) == "self.derivedMustUpdate = True" for x in walk_local(f.node)), f"Block.{name}:re-arms-the-derived-shape", f, msg="adding a component changes what is left for the derived shape")
 
 
+def r14_expansion_adds(idx, r):
+    """expandElementalToIsotopics replaces an elemental entry (FE) by its natural isotopes.  A component may already hold some of those
+    isotopes explicitly (FE56 from the blueprint): the share coming from the element is ADDED to what is there - a plain assignment overwrites it
+    and the element's atoms are not conserved."""
+    f = idx.method(AO, "expandElementalToIsotopics")
+    loop = next((x for x in walk_local(f.node) if isinstance(x, ast.For) and "getNaturalIsotopics" in norm(x.iter)), None)
+    if loop is None:
+        raise AnchorMissing("expandElementalToIsotopics: loop over the natural isotopics")
+    sets = [c for c in ast.walk(loop) if isinstance(c, ast.Call) and call_attr(c) == "setNumberDensity" and len(c.args) == 2]
+    if not sets:
+        raise AnchorMissing("expandElementalToIsotopics: setNumberDensity(isotope, ...)")
+    for c in sets:
+        v = c.args[1]
+        recv = norm(c.func.value)
+        acc = isinstance(v, ast.BinOp) and isinstance(v.op, ast.Add) and any(isinstance(y, ast.Call) and call_attr(y) in ("getNumberDensity",) and norm(y.func.value) == recv and norm(y.args[0]) == norm(c.args[0]) for y in ast.walk(v))
+        r.require(acc, "expandElementalToIsotopics:isotope-share-added", f, node=c,
+                  msg=f"`{norm(c)[:90]}` sets the isotope to the element's share alone: an isotope the component already held explicitly loses its own atoms (iron density 0.0803 -> 0.0703 for FE plus FE56 = 0.01)")
+
+
 def run(idx, chk):
     chk.explanation = (
         "C02: 24 conversion/accounting functions are typed in the free abelian group of physical units (cm, g, mol, barn, atom) plus a role generator "
@@ -618,3 +637,5 @@ def run(idx, chk):
                  necessary="volume at assembly level = sum of block volumes; merging conserves the atoms of every nuclide")
     chk.run_rule("R02.13", "Block overrides each child-list primitive (add, insert, remove) and drops its caches there", lambda r: r13_block_primitives_invalidate(idx, r), floor=5,
                  necessary="block volume = sum of the volumes of the components it holds now")
+    chk.run_rule("R02.14", "expanding an element adds its share to the isotope densities already present", lambda r: r14_expansion_adds(idx, r), floor=1,
+                 necessary="the atoms of an element are conserved when it is expanded into isotopes")
